@@ -19,7 +19,7 @@ import (
 // its own honest transcript, so every deviation that changes handshake bytes
 // also makes the Finished values disagree: the endpoint must never complete.
 
-var scriptFaults = []string{"replace-type", "duplicate", "omit", "truncate-body", "truncate-body+close", "set-byte", "handshake-length", "insert-record", "close-before", "close-inside", "stall", "fragment(legal)", "coalesce(legal)", "replace-body", "record-version", "oversize-record", "warning-alerts", "empty-record", "length-field", "finished-early", "plaintext-finished", "swap-with-next",
+var scriptFaults = []string{"replace-type", "duplicate", "omit", "truncate-body", "truncate-body+close", "set-byte", "handshake-length", "insert-record", "close-before", "close-inside", "stall", "fragment(legal)", "coalesce(legal)", "replace-body", "record-version", "oversize-record", "warning-alerts", "empty-record", "length-field", "finished-early", "plaintext-finished", "swap-with-next", "extend-body",
 	"hello-version", "hello-suites", "hello-compression", "server-bad-selection", "server-cert-list", "deadline", "crafted-key-exchange", "malformed-extensions", "cert-message-omitted", "ecdhe-server-params"}
 var scriptReach = []string{"honest-client-vs-gm-server", "honest-client-vs-auto-server", "honest-server-vs-gm-client", "must-complete-completed", "must-fail-failed", "unspecified-ok", "eut-client", "eut-server-gm", "eut-server-auto", "eut-server-tls", "alert-from-eut", "timeout-at-deadline", "legit-wait", "client-auth-path", "dev-in-client-flight", "dev-in-server-flight", "dev-after-ccs", "scripted-tls12-peer", "honest-tls12-client-vs-auto-server", "honest-tls12-client-vs-tls-server", "honest-tls12-server-vs-tls-client", "npn-negotiated", "unnegotiated-optional-message-refused", "honest-ecdhe-completed", "server-version-bounds", "server-getconfigforclient"}
 
@@ -101,7 +101,7 @@ func drawDev(c *simkit.Choice, units int) (*reftls.Dev, int, string) {
 	d := &reftls.Dev{At: c.Choose(units, simkit.LFault)}
 	exp := expFail
 	why := ""
-	k := c.Weighted([]int{3, 3, 3, 3, 3, 4, 2, 4, 3, 3, 1, 3, 2, 2, 2, 1, 2, 1, 6, 0, 2, 4}, simkit.LFault)
+	k := c.Weighted([]int{3, 3, 3, 3, 3, 4, 2, 4, 3, 3, 1, 3, 2, 2, 2, 1, 2, 1, 6, 0, 2, 4, 4}, simkit.LFault)
 	d.Kind = k + 1
 	switch d.Kind {
 	case reftls.DevReplaceType:
@@ -209,6 +209,9 @@ func drawDev(c *simkit.Choice, units int) (*reftls.Dev, int, string) {
 		d.N = c.Choose(64, simkit.LFault)
 		d.Val = []int{1, 2, 3, -1, -2, -3, 255, -100000, 65536}[c.Choose(9, simkit.LFault)]
 		why = fmt.Sprintf("one length/count field inside the message %+d", d.Val)
+	case reftls.DevExtendBody:
+		d.RecBody = drawData(c, c.Range(1, 8, simkit.LFault))
+		why = "bytes appended behind the message body (handshake length adjusted, hashed by the peer as sent)"
 	case reftls.DevSwapNext:
 		why = "message changes places with the one after it (hashed and signed in the order sent)"
 	case reftls.DevPlainFinished:
